@@ -128,10 +128,12 @@ theorem qmatches_self {k : Path} (h : glob ∉ k) : qmatches k k = true := by
 /-! ### the simulation relation -/
 
 /-- what the replay claim assumes of one update of an incoming notification: its index holds no
-element named `*`, and its origin, if any, is carried in the prefix (the cache indexes updates
-without the origin of the update path: `ToStrings(path, false)`) -/
+element named `*`, its origin, if any, is carried in the prefix (the cache indexes updates
+without the origin of the update path: `ToStrings(path, false)`), and its first index element is
+not the empty string (`Reset` announces the delete of a top-level subtree `r` as origin `r`,
+path `*`: for `r = ""` that reads "everything") -/
 def CleanU (n : Noti) (u : Upd) : Prop :=
-  glob ∉ updKey n u ∧ (n.origin ≠ "" ∨ u.origin = "")
+  glob ∉ updKey n u ∧ (n.origin ≠ "" ∨ u.origin = "") ∧ (updKey n u).head? ≠ some ""
 
 def Clean (n : Noti) : Prop := ∀ u ∈ n.upd, CleanU n u
 
@@ -140,16 +142,18 @@ def StoredAt (kv : Path × Noti) : Prop :=
   ∃ u us, kv.2.upd = u :: us ∧ updKey kv.2 u = kv.1 ∧ (kv.2.origin ≠ "" ∨ u.origin = "")
 
 /-- everything the simulation maintains about a target's tree and the view following its feed -/
-structure GT (cfg : Cfg) (view : View) (tree : PMap Noti) : Prop where
+structure GT (cfg : Cfg) (nm : String) (view : View) (tree : PMap Noti) : Prop where
   unique : UniqueKeys tree
   pf : PrefixFree tree
   noGlob : ∀ kv ∈ tree, glob ∉ kv.1
   storedAt : ∀ kv ∈ tree, StoredAt kv
+  owner : ∀ kv ∈ tree, kv.2.target = nm
+  head : ∀ kv ∈ tree, kv.1.head? ≠ some ""
   r : R cfg view tree
 
-theorem GT.init (cfg : Cfg) : GT cfg [] [] :=
+theorem GT.init (cfg : Cfg) (nm : String) : GT cfg nm [] [] :=
   ⟨List.nodup_nil, fun a h => (by cases h), fun kv h => (by cases h), fun kv h => (by cases h),
-   ⟨List.nodup_nil, fun _ => trivial⟩⟩
+   fun kv h => (by cases h), fun kv h => (by cases h), ⟨List.nodup_nil, fun _ => trivial⟩⟩
 
 theorem sim_none_left {cfg : Cfg} {a : Option Noti} (h : Sim cfg a none) : a = none := by
   cases a with
@@ -185,12 +189,12 @@ theorem evKey_eq {n : Noti} {u : Upd} {us : List Upd} (hu : n.upd = u :: us) : e
 
 /-- the tree moves from `tree` to `tree'` by setting `key := n` (an overwrite or a clean add), and
 the view applies the update event -/
-theorem GT.set {cfg : Cfg} {view : View} {tree tree' : PMap Noti} {key : Path} {n : Noti} {u : Upd}
-    {us : List Upd} (hg : GT cfg view tree) (hu' : UniqueKeys tree')
+theorem GT.set {cfg : Cfg} {nm : String} {view : View} {tree tree' : PMap Noti} {key : Path} {n : Noti} {u : Upd}
+    {us : List Upd} (hg : GT cfg nm view tree) (htg : n.target = nm) (hu' : UniqueKeys tree')
     (hd : lookup tree' key = some n) (he : ∀ k', k' ≠ key → lookup tree' k' = lookup tree k')
     (hc : ∀ kv ∈ tree, kv.1 ≠ key → ¬ key <+: kv.1 ∧ ¬ kv.1 <+: key)
     (hn : n.upd = u :: us) (hk : updKey n u = key) (hcl : CleanU n u) :
-    GT cfg (applyEvent view (.upd n)) tree' := by
+    GT cfg nm (applyEvent view (.upd n)) tree' := by
   have hmem : ∀ kv ∈ tree', kv = (key, n) ∨ (kv ∈ tree ∧ kv.1 ≠ key) := by
     intro kv hkv
     have hl := lookup_some_of_mem hu' hkv
@@ -202,7 +206,7 @@ theorem GT.set {cfg : Cfg} {view : View} {tree tree' : PMap Noti} {key : Path} {
       rw [hkk, Option.some.inj hl]
     · rw [he _ hkk] at hl
       exact Or.inr ⟨mem_of_lookup_some hl, hkk⟩
-  refine ⟨hu', ?_, ?_, ?_, ?_⟩
+  refine ⟨hu', ?_, ?_, ?_, ?_, ?_, ?_⟩
   · intro a ha b hb hab
     rcases hmem a ha with rfl | ⟨ha', hak⟩ <;> rcases hmem b hb with rfl | ⟨hb', hbk⟩
     · rfl
@@ -215,8 +219,16 @@ theorem GT.set {cfg : Cfg} {view : View} {tree tree' : PMap Noti} {key : Path} {
     · exact hg.noGlob kv h
   · intro kv hkv
     rcases hmem kv hkv with rfl | ⟨h, _⟩
-    · exact ⟨u, us, hn, hk, hcl.2⟩
+    · exact ⟨u, us, hn, hk, hcl.2.1⟩
     · exact hg.storedAt kv h
+  · intro kv hkv
+    rcases hmem kv hkv with rfl | ⟨h, _⟩
+    · exact htg
+    · exact hg.owner kv h
+  · intro kv hkv
+    rcases hmem kv hkv with rfl | ⟨h, _⟩
+    · rw [← hk]; exact hcl.2.2
+    · exact hg.head kv h
   · have hek : evKey n = key := (evKey_eq hn).trans hk
     have hnone : ∀ k', k' ≠ key → key <+: k' → lookup tree k' = none := by
       intro k' hne hpre
@@ -236,12 +248,12 @@ theorem GT.set {cfg : Cfg} {view : View} {tree tree' : PMap Noti} {key : Path} {
 
 /-- the leaf is overwritten but the feed is told nothing (event-driven suppression): the view
 keeps a notification with an equal value -/
-theorem GT.suppress {cfg : Cfg} {view : View} {tree : PMap Noti} {key : Path} {n old : Noti} {u ou : Upd}
-    {us ous : List Upd} (hg : GT cfg view tree) (hl : lookup tree key = some old)
+theorem GT.suppress {cfg : Cfg} {nm : String} {view : View} {tree : PMap Noti} {key : Path} {n old : Noti} {u ou : Upd}
+    {us ous : List Upd} (hg : GT cfg nm view tree) (htg : n.target = nm) (hl : lookup tree key = some old)
     (hn : n.upd = u :: us) (hk : updKey n u = key) (hcl : CleanU n u)
     (hna : n.atomic = false) (hoa : old.atomic = false) (hou : old.upd = ou :: ous)
     (hve : valueEqual ou.val u.val = true) (hed : cfg.eventDriven = true) :
-    GT cfg view (setLeaf tree key n) := by
+    GT cfg nm view (setLeaf tree key n) := by
   have hu' := setLeaf_unique key n hg.unique
   have hd := lookup_setLeaf_same (n := n) hg.unique hl
   have he : ∀ k', k' ≠ key → lookup (setLeaf tree key n) k' = lookup tree k' :=
@@ -252,7 +264,7 @@ theorem GT.suppress {cfg : Cfg} {view : View} {tree : PMap Noti} {key : Path} {n
     · left; obtain ⟨a, b⟩ := kv; simp only at h1 h2; rw [h1, h2]
     · exact Or.inr h
   have hkm := mem_of_lookup_some hl
-  refine ⟨hu', ?_, ?_, ?_, hg.r.unique, ?_⟩
+  refine ⟨hu', ?_, ?_, ?_, ?_, ?_, hg.r.unique, ?_⟩
   · intro a ha b hb hab
     have ha' : ∃ v, (a.1, v) ∈ tree := by
       rcases hmem a ha with rfl | ⟨h, _⟩
@@ -271,8 +283,16 @@ theorem GT.suppress {cfg : Cfg} {view : View} {tree : PMap Noti} {key : Path} {n
     · exact hg.noGlob kv h
   · intro kv hkv
     rcases hmem kv hkv with rfl | ⟨h, _⟩
-    · exact ⟨u, us, hn, hk, hcl.2⟩
+    · exact ⟨u, us, hn, hk, hcl.2.1⟩
     · exact hg.storedAt kv h
+  · intro kv hkv
+    rcases hmem kv hkv with rfl | ⟨h, _⟩
+    · exact htg
+    · exact hg.owner kv h
+  · intro kv hkv
+    rcases hmem kv hkv with rfl | ⟨h, _⟩
+    · rw [← hk]; exact hcl.2.2
+    · exact hg.head kv h
   · intro k'
     by_cases hkk : k' = key
     · subst hkk
@@ -318,22 +338,24 @@ theorem conflicts_false {tree : PMap Noti} {key : Path} (h : PMap.conflicts tree
 
 /-- **One update.** Whatever `gnmiUpdate1` does to the tree, applying what it hands to the feed
 keeps the view in step. -/
-theorem _root_.Gnmi.Cache.Effect.sim {cfg : Cfg} {t : Target} {n : Noti} {u : Upd} {us : List Upd}
+theorem _root_.Gnmi.Cache.Effect.sim {cfg : Cfg} {nm : String} {t : Target} {n : Noti} {u : Upd} {us : List Upd}
     {out : Res × Target × Option Noti} {view : View}
-    (he : Effect cfg t n u (updKey n u) out) (hu : n.upd = u :: us) (hc : CleanU n u)
-    (hg : GT cfg view t.tree) :
-    out.1 ≠ .panic ∧ (out.1.isErr = true → out.2.2 = none) ∧ GT cfg (afterUpd view out.2.2) out.2.1.tree := by
+    (he : Effect cfg t n u (updKey n u) out) (hu : n.upd = u :: us) (hc : CleanU n u) (htg : n.target = nm)
+    (hg : GT cfg nm view t.tree) :
+    out.1 ≠ .panic ∧ (out.1.isErr = true → out.2.2 = none) ∧ (∀ nd, out.2.2 = some nd → nd.target = nm) ∧
+    GT cfg nm (afterUpd view out.2.2) out.2.1.tree ∧
+    out.2.1.name = t.name := by
   cases he with
   | rejected r t' hr h1 h2 h3 h4 =>
-    refine ⟨?_, fun _ => rfl, ?_⟩
+    refine ⟨?_, fun _ => rfl, fun nd h => (by cases h), ?_, h3⟩
     · rcases hr with rfl | rfl | rfl <;> simp
-    · show GT cfg view t'.tree
+    · show GT cfg nm view t'.tree
       rw [h1]; exact hg
   | replaced t' old hk hl hts h1 h2 h3 h4 =>
-    refine ⟨by simp, fun h => by simp [Res.isErr] at h, ?_⟩
-    show GT cfg (applyEvent view (.upd n)) t'.tree
+    refine ⟨by simp, fun h => by simp [Res.isErr] at h, fun nd h => (by cases h; exact htg), ?_, h3⟩
+    show GT cfg nm (applyEvent view (.upd n)) t'.tree
     rw [h1]
-    refine hg.set (setLeaf_unique _ n hg.unique) (lookup_setLeaf_same hg.unique hl)
+    refine hg.set htg (setLeaf_unique _ n hg.unique) (lookup_setLeaf_same hg.unique hl)
       (fun k' hne => lookup_setLeaf_other hg.unique hne) ?_ hu rfl hc
     intro kv hkv hne
     have hkm := mem_of_lookup_some hl
@@ -341,35 +363,38 @@ theorem _root_.Gnmi.Cache.Effect.sim {cfg : Cfg} {t : Target} {n : Noti} {u : Up
     · intro hp; exact hne (hg.pf _ hkm _ hkv hp).symm
     · intro hp; exact hne (hg.pf _ hkv _ hkm hp)
   | suppressed t' old ou ous hk hl hts h1 h2 h3 h4 hna hoa hou hve hed =>
-    refine ⟨by simp, fun _ => rfl, ?_⟩
-    show GT cfg view t'.tree
+    refine ⟨by simp, fun _ => rfl, fun nd h => (by cases h), ?_, h3⟩
+    show GT cfg nm view t'.tree
     rw [h1]
-    exact hg.suppress hl hu rfl hc hna hoa hou hve hed
+    exact hg.suppress htg hl hu rfl hc hna hoa hou hve hed
   | added t' hk hl ha h2 h3 m1 m2 m3 =>
-    refine ⟨by simp, fun h => by simp [Res.isErr] at h, ?_⟩
-    show GT cfg (applyEvent view (.upd n)) t'.tree
+    refine ⟨by simp, fun h => by simp [Res.isErr] at h, fun nd h => (by cases h; exact htg), ?_, h3⟩
+    show GT cfg nm (applyEvent view (.upd n)) t'.tree
     have hcf : PMap.conflicts t.tree (updKey n u) = false := by
       unfold PMap.add at ha
       cases hcf : PMap.conflicts t.tree (updKey n u) with
       | false => rfl
       | true => simp [hcf] at ha
-    exact hg.set (add_unique hg.unique ha) (lookup_add_same ha)
+    exact hg.set htg (add_unique hg.unique ha) (lookup_add_same ha)
       (fun k' hne => lookup_add_other ha hne) (conflicts_false hcf) hu rfl hc
   | panicOld t' old hl ho =>
     obtain ⟨u', us', h', _⟩ := hg.storedAt _ (mem_of_lookup_some hl)
     rw [ho] at h'; cases h'
 
-theorem gnmiUpdate1_sim {cfg : Cfg} {view : View} (now : Int) (t : Target) (n : Noti) (u : Upd) (us : List Upd)
-    (hu : n.upd = u :: us) (ht : n.target ≠ "") (hc : CleanU n u) (hg : GT cfg view t.tree) :
+theorem gnmiUpdate1_sim {cfg : Cfg} {nm : String} {view : View} (now : Int) (t : Target) (n : Noti) (u : Upd)
+    (us : List Upd) (hu : n.upd = u :: us) (ht : nm ≠ "") (htg : n.target = nm) (hc : CleanU n u)
+    (hg : GT cfg nm view t.tree) :
     (Target.gnmiUpdate1 cfg now t n).1 ≠ .panic ∧
     ((Target.gnmiUpdate1 cfg now t n).1.isErr = true → (Target.gnmiUpdate1 cfg now t n).2.2 = none) ∧
-    GT cfg (afterUpd view (Target.gnmiUpdate1 cfg now t n).2.2) (Target.gnmiUpdate1 cfg now t n).2.1.tree :=
-  (gnmiUpdate1_effect cfg now t n u us hu ht).sim hu hc hg
+    (∀ nd, (Target.gnmiUpdate1 cfg now t n).2.2 = some nd → nd.target = nm) ∧
+    GT cfg nm (afterUpd view (Target.gnmiUpdate1 cfg now t n).2.2) (Target.gnmiUpdate1 cfg now t n).2.1.tree ∧
+    (Target.gnmiUpdate1 cfg now t n).2.1.name = t.name :=
+  (gnmiUpdate1_effect cfg now t n u us hu (by rw [htg]; exact ht)).sim hu hc htg hg
 
 /-! ### deletes: the view drops exactly the removed leaves -/
 
 theorem toDeleteEvent_stored {kv : Path × Noti} (ts : Int) (h : StoredAt kv) :
-    ∃ tg o p, toDeleteEvent? kv.2 ts = some (.del tg o p ts) ∧ (if o = "" then [] else [o]) ++ p = kv.1 := by
+    ∃ o p, toDeleteEvent? kv.2 ts = some (.del kv.2.target o p ts) ∧ (if o = "" then [] else [o]) ++ p = kv.1 := by
   obtain ⟨u, us, hu, hk, ho⟩ := h
   have hcond : (decide (kv.2.origin = "") && (u.origin != "")) = false := by
     rcases ho with h | h
@@ -378,7 +403,7 @@ theorem toDeleteEvent_stored {kv : Path × Noti} (ts : Int) (h : StoredAt kv) :
   unfold toDeleteEvent?
   rw [hu]
   simp only [hcond, Bool.false_eq_true, if_false]
-  refine ⟨_, _, _, rfl, ?_⟩
+  refine ⟨_, _, rfl, ?_⟩
   rw [← hk]
   unfold updKey joinKey
   simp [List.append_assoc]
@@ -390,22 +415,29 @@ theorem applyDels (ts : Int) : ∀ (rem : PMap Noti) (evs : List Event) (view : 
     (∀ kv ∈ rem, StoredAt kv) →
     allSome (rem.map (fun kv => toDeleteEvent? kv.2 ts)) = some evs →
     (UniqueKeys view → UniqueKeys (applyEvents view evs)) ∧
+    (∀ e ∈ evs, ∃ kv ∈ rem, evTarget e = kv.2.target) ∧
     ∀ k, lookup (applyEvents view evs) k =
       if rem.any (fun kv => qmatches kv.1 k) then none else lookup view k
   | [], evs, view, _, hall => by
     simp only [List.map_nil, allSome] at hall
     cases hall
-    exact ⟨fun h => h, fun k => by simp [applyEvents]⟩
+    exact ⟨fun h => h, fun e h => (by cases h), fun k => by simp [applyEvents]⟩
   | kv :: rest, evs, view, hst, hall => by
-    obtain ⟨tg, o, p, he, hkey⟩ := toDeleteEvent_stored ts (hst kv (List.mem_cons_self ..))
+    obtain ⟨o, p, he, hkey⟩ := toDeleteEvent_stored ts (hst kv (List.mem_cons_self ..))
+    generalize htg : kv.2.target = tg at he
     simp only [List.map_cons, he, allSome, Option.map_eq_some_iff] at hall
     obtain ⟨evs', hall', rfl⟩ := hall
-    obtain ⟨ih1, ih2⟩ := applyDels ts rest evs' (applyEvent view (.del tg o p ts))
+    obtain ⟨ih1, ih3, ih2⟩ := applyDels ts rest evs' (applyEvent view (.del tg o p ts))
       (fun x hx => hst x (List.mem_cons_of_mem _ hx)) hall'
     have hap : applyEvents view (Event.del tg o p ts :: evs') =
         applyEvents (applyEvent view (.del tg o p ts)) evs' := rfl
     rw [hap]
-    refine ⟨fun h => ih1 (applyEvent_del_unique tg o p ts h), ?_⟩
+    refine ⟨fun h => ih1 (applyEvent_del_unique tg o p ts h), ?_, ?_⟩
+    · intro e he'
+      rcases List.mem_cons.1 he' with rfl | h
+      · exact ⟨kv, List.mem_cons_self .., htg.symm⟩
+      · obtain ⟨x, hx, hxe⟩ := ih3 e h
+        exact ⟨x, List.mem_cons_of_mem _ hx, hxe⟩
     intro k
     rw [ih2 k]
     have happ : applyEvent view (.del tg o p ts) = view.filter (fun x => !qmatches kv.1 x.1) := by
@@ -418,19 +450,24 @@ theorem applyDels (ts : Int) : ∀ (rem : PMap Noti) (evs : List Event) (view : 
     by_cases h1 : qmatches kv.1 k = true <;> by_cases h2 : rest.any (fun x => qmatches x.1 k) = true <;>
       simp [h1, h2]
 
-theorem GT.delete {cfg : Cfg} {view : View} {tree : PMap Noti} (hg : GT cfg view tree) (c : Noti → Bool)
-    (q : Path) (ts : Int) (evs : List Event)
+theorem GT.delete {cfg : Cfg} {nm : String} {view : View} {tree : PMap Noti} (hg : GT cfg nm view tree)
+    (c : Noti → Bool) (q : Path) (ts : Int) (evs : List Event)
     (hall : allSome ((PMap.delete c tree q).2.map (fun kv => toDeleteEvent? kv.2 ts)) = some evs) :
-    GT cfg (applyEvents view evs) (PMap.delete c tree q).1 := by
+    (∀ e ∈ evs, evTarget e = nm) ∧ GT cfg nm (applyEvents view evs) (PMap.delete c tree q).1 := by
   have hsub1 : ∀ kv ∈ (PMap.delete c tree q).1, kv ∈ tree := fun kv h => (List.mem_filter.1 h).1
   have hrem : ∀ kv, kv ∈ (PMap.delete c tree q).2 ↔ kv ∈ tree ∧ (qmatches q kv.1 && c kv.2) = true :=
     fun kv => List.mem_filter
-  obtain ⟨hu, hlk⟩ := applyDels ts (PMap.delete c tree q).2 evs view
+  obtain ⟨hu, hto, hlk⟩ := applyDels ts (PMap.delete c tree q).2 evs view
     (fun kv h => hg.storedAt kv ((hrem kv).1 h).1) hall
-  refine ⟨delete_unique c q hg.unique, ?_, ?_, ?_, hu hg.r.unique, ?_⟩
+  refine ⟨?_, delete_unique c q hg.unique, ?_, ?_, ?_, ?_, ?_, hu hg.r.unique, ?_⟩
+  · intro e he
+    obtain ⟨kv, hkv, hk⟩ := hto e he
+    rw [hk]; exact hg.owner kv ((hrem kv).1 hkv).1
   · intro a ha b hb; exact hg.pf a (hsub1 a ha) b (hsub1 b hb)
   · intro kv h; exact hg.noGlob kv (hsub1 kv h)
   · intro kv h; exact hg.storedAt kv (hsub1 kv h)
+  · intro kv h; exact hg.owner kv (hsub1 kv h)
+  · intro kv h; exact hg.head kv (hsub1 kv h)
   · intro k
     rw [hlk k]
     cases hl : lookup tree k with
@@ -476,10 +513,10 @@ theorem GT.delete {cfg : Cfg} {view : View} {tree : PMap Noti} (hg : GT cfg view
         rw [hl] at this
         exact this
 
-theorem gnmiRemove1_sim {cfg : Cfg} {view : View} (t : Target) (n : Noti) (hd : n.del ≠ [])
-    (ht : n.target ≠ "") (hg : GT cfg view t.tree) :
-    (Target.gnmiRemove1 t n).2.2 = false ∧
-    GT cfg (applyEvents view (Target.gnmiRemove1 t n).2.1) (Target.gnmiRemove1 t n).1.tree := by
+theorem gnmiRemove1_sim {cfg : Cfg} {nm : String} {view : View} (t : Target) (n : Noti) (hd : n.del ≠ [])
+    (ht : n.target ≠ "") (hg : GT cfg nm view t.tree) :
+    (Target.gnmiRemove1 t n).2.2 = false ∧ (∀ e ∈ (Target.gnmiRemove1 t n).2.1, evTarget e = nm) ∧
+    GT cfg nm (applyEvents view (Target.gnmiRemove1 t n).2.1) (Target.gnmiRemove1 t n).1.tree := by
   match hdd : n.del with
   | [] => exact absurd hdd hd
   | d :: ds =>
@@ -515,131 +552,164 @@ theorem applyEvents_group (view : View) (evs : List (List Event)) (g : List Even
   · simp [applyEvents, List.foldl_append]
 
 /-- what the loops of a multi-update notification maintain: the view that has applied the events
-emitted so far follows the accumulator's tree -/
-structure AccSim (cfg : Cfg) (view : View) (acc : MultiAcc) : Prop where
+emitted so far follows the accumulator's tree, and every event names the target -/
+structure AccSim (cfg : Cfg) (nm : String) (view : View) (acc : MultiAcc) : Prop where
   noPanic : acc.panicked = false
-  g : GT cfg (applyEvents view acc.evs.flatten) acc.t.tree
+  to : ∀ e ∈ acc.evs.flatten, evTarget e = nm
+  g : GT cfg nm (applyEvents view acc.evs.flatten) acc.t.tree
 
-theorem multiUpdates_sim {cfg : Cfg} {view : View} (now : Int) (hdr : Noti) (hh : hdr.target ≠ "") :
-    ∀ (us : List Upd) (acc : MultiAcc), (∀ u ∈ us, CleanU hdr u) → AccSim cfg view acc →
-      AccSim cfg view (multiUpdates cfg now hdr us acc)
+theorem mem_flatten_snoc {e x : Event} {evs : List (List Event)} (h : e ∈ (evs ++ [[x]]).flatten) :
+    e ∈ evs.flatten ∨ e = x := by
+  simpa using h
+
+theorem mem_flatten_group {e : Event} {evs : List (List Event)} {g : List Event}
+    (h : e ∈ (if g.isEmpty then evs else evs ++ [g]).flatten) : e ∈ evs.flatten ∨ e ∈ g := by
+  split at h
+  · exact Or.inl h
+  · simpa using h
+
+theorem multiUpdates_sim {cfg : Cfg} {nm : String} {view : View} (now : Int) (hdr : Noti) (hh : nm ≠ "")
+    (htg : hdr.target = nm) :
+    ∀ (us : List Upd) (acc : MultiAcc), (∀ u ∈ us, CleanU hdr u) → AccSim cfg nm view acc →
+      AccSim cfg nm view (multiUpdates cfg now hdr us acc)
   | [], acc, _, h => by simpa [multiUpdates] using h
   | u :: us, acc, hc, h => by
-    have hs := gnmiUpdate1_sim (cfg := cfg) (view := applyEvents view acc.evs.flatten) now acc.t
-      { hdr with upd := [u], del := [] } u [] rfl hh (hc u (List.mem_cons_self ..)) h.g
-    obtain ⟨s1, s2, s3⟩ := hs
+    have hs := gnmiUpdate1_sim (cfg := cfg) (nm := nm) (view := applyEvents view acc.evs.flatten) now acc.t
+      { hdr with upd := [u], del := [] } u [] rfl hh htg (hc u (List.mem_cons_self ..)) h.g
+    obtain ⟨s1, s2, s5, s3, _⟩ := hs
     have hp := h.noPanic
     have hc' : ∀ u ∈ us, CleanU hdr u := fun x hx => hc x (List.mem_cons_of_mem _ hx)
     unfold multiUpdates
     simp only [hp, Bool.false_eq_true, if_false, s1]
     split
     · rename_i herr
-      apply multiUpdates_sim now hdr hh us _ hc'
+      apply multiUpdates_sim now hdr hh htg us _ hc'
       rw [s2 herr] at s3
-      exact ⟨rfl, s3⟩
+      exact ⟨rfl, h.to, s3⟩
     · split
       · rename_i nd hnd
-        apply multiUpdates_sim now hdr hh us _ hc'
+        apply multiUpdates_sim now hdr hh htg us _ hc'
         rw [hnd] at s3
-        change GT cfg (applyEvent _ (.upd nd)) _ at s3
+        change GT cfg nm (applyEvent _ (.upd nd)) _ at s3
         rw [← applyEvents_snoc] at s3
-        exact ⟨rfl, s3⟩
+        refine ⟨rfl, ?_, s3⟩
+        intro e he
+        rcases mem_flatten_snoc he with h1 | rfl
+        · exact h.to e h1
+        · exact s5 nd hnd
       · rename_i hnone
-        apply multiUpdates_sim now hdr hh us _ hc'
+        apply multiUpdates_sim now hdr hh htg us _ hc'
         rw [hnone] at s3
-        exact ⟨rfl, s3⟩
+        exact ⟨rfl, h.to, s3⟩
 
-theorem multiDeletes_sim {cfg : Cfg} {view : View} (hdr : Noti) (hh : hdr.target ≠ "") :
-    ∀ (ds : List Del) (acc : MultiAcc), AccSim cfg view acc → AccSim cfg view (multiDeletes hdr ds acc)
+theorem multiDeletes_sim {cfg : Cfg} {nm : String} {view : View} (hdr : Noti) (hh : hdr.target ≠ "") :
+    ∀ (ds : List Del) (acc : MultiAcc), AccSim cfg nm view acc → AccSim cfg nm view (multiDeletes hdr ds acc)
   | [], acc, h => by simpa [multiDeletes] using h
   | d :: ds, acc, h => by
-    have hs := gnmiRemove1_sim (cfg := cfg) (view := applyEvents view acc.evs.flatten)
+    have hs := gnmiRemove1_sim (cfg := cfg) (nm := nm) (view := applyEvents view acc.evs.flatten)
       { acc.t with md := { acc.t.md with updated := acc.t.md.updated + 1 } }
       { hdr with upd := [], del := [d] } (by simp) hh h.g
-    obtain ⟨s1, s2⟩ := hs
+    obtain ⟨s1, s3, s2⟩ := hs
     have hp := h.noPanic
     unfold multiDeletes
     simp only [hp, Bool.false_eq_true, if_false, s1]
     apply multiDeletes_sim hdr hh ds
-    refine ⟨rfl, ?_⟩
-    rw [← applyEvents_group] at s2
-    exact s2
+    refine ⟨rfl, ?_, ?_⟩
+    · intro e he
+      rcases mem_flatten_group he with h1 | h1
+      · exact h.to e h1
+      · exact s3 e h1
+    · rw [← applyEvents_group] at s2
+      exact s2
 
-theorem singleArm_sim {cfg : Cfg} {view : View} {r : Res × Target × Option Noti} (cnt : Int)
-    (h : r.1 ≠ .panic ∧ (r.1.isErr = true → r.2.2 = none) ∧ GT cfg (afterUpd view r.2.2) r.2.1.tree) :
-    (singleArm r cnt).1 ≠ .panic ∧
-    GT cfg (applyEvents view (singleArm r cnt).2.2.1.flatten) (singleArm r cnt).2.1.tree := by
-  obtain ⟨s1, s2, s3⟩ := h
+theorem singleArm_sim {cfg : Cfg} {nm : String} {view : View} {r : Res × Target × Option Noti} (cnt : Int)
+    (h : r.1 ≠ .panic ∧ (r.1.isErr = true → r.2.2 = none) ∧ (∀ nd, r.2.2 = some nd → nd.target = nm) ∧
+      GT cfg nm (afterUpd view r.2.2) r.2.1.tree) :
+    (singleArm r cnt).1 ≠ .panic ∧ (∀ e ∈ (singleArm r cnt).2.2.1.flatten, evTarget e = nm) ∧
+    GT cfg nm (applyEvents view (singleArm r cnt).2.2.1.flatten) (singleArm r cnt).2.1.tree := by
+  obtain ⟨s1, s2, s4, s3⟩ := h
   unfold singleArm
   split
   · rename_i herr
     rw [s2 herr] at s3
-    exact ⟨s1, s3⟩
+    exact ⟨s1, fun e he => (by simp at he), s3⟩
   · split
     · rename_i nd hnd
       rw [hnd] at s3
-      exact ⟨by simp, s3⟩
+      refine ⟨by simp, ?_, s3⟩
+      intro e he
+      have : e = .upd nd := by simpa using he
+      rw [this]; exact s4 nd hnd
     · rename_i hnone
       rw [hnone] at s3
-      exact ⟨by simp, s3⟩
+      exact ⟨by simp, fun e he => (by simp at he), s3⟩
 
 /-- **The switch of `Target.GnmiUpdate`**: the view that applies the emitted events follows the
-tree, whatever the shape of the notification. -/
-theorem dispatch_sim {cfg : Cfg} {view : View} (now : Int) (t : Target) (n : Noti) (ht : n.target ≠ "")
-    (hc : Clean n) (hg : GT cfg view t.tree) :
-    (t.dispatch cfg now n).1 ≠ .panic ∧
-    GT cfg (applyEvents view (t.dispatch cfg now n).2.2.1.flatten) (t.dispatch cfg now n).2.1.tree := by
+tree, whatever the shape of the notification, and every event names the notification's target. -/
+theorem dispatch_sim {cfg : Cfg} {nm : String} {view : View} (now : Int) (t : Target) (n : Noti) (ht : nm ≠ "")
+    (htg : n.target = nm) (hc : Clean n) (hg : GT cfg nm view t.tree) :
+    (t.dispatch cfg now n).1 ≠ .panic ∧ (∀ e ∈ (t.dispatch cfg now n).2.2.1.flatten, evTarget e = nm) ∧
+    GT cfg nm (applyEvents view (t.dispatch cfg now n).2.2.1.flatten) (t.dispatch cfg now n).2.1.tree := by
   have first : ∀ u us, n.upd = u :: us → CleanU n u := fun u us h => hc u (by rw [h]; exact List.mem_cons_self ..)
+  have ht' : n.target ≠ "" := by rw [htg]; exact ht
+  have nil : ∀ e ∈ ([] : List (List Event)).flatten, evTarget e = nm := fun e he => (by simp at he)
   unfold Target.dispatch
   split
   · split
-    · exact ⟨by simp, hg⟩
+    · exact ⟨by simp, nil, hg⟩
     · split
-      · exact ⟨by simp, hg⟩
+      · exact ⟨by simp, nil, hg⟩
       · rename_i hne
         match hu : n.upd with
         | [] => rw [hu] at hne; simp at hne
         | u :: us =>
-          exact singleArm_sim _ (gnmiUpdate1_sim now t n u us hu ht (first u us hu) hg)
+          have hs := gnmiUpdate1_sim (cfg := cfg) (nm := nm) (view := view) now t n u us hu ht htg (first u us hu) hg
+          exact singleArm_sim _ ⟨hs.1, hs.2.1, hs.2.2.1, hs.2.2.2.1⟩
   · split
-    · have ha := multiUpdates_sim (cfg := cfg) (view := view) now { n with upd := [], del := [] } ht n.upd
-        { t := t } (fun u hu => hc u hu) ⟨rfl, hg⟩
-      have hb := multiDeletes_sim (cfg := cfg) (view := view) { n with upd := [], del := [] } ht n.del _ ha
+    · have ha := multiUpdates_sim (cfg := cfg) (nm := nm) (view := view) now { n with upd := [], del := [] } ht htg
+        n.upd { t := t } (fun u hu => hc u hu) ⟨rfl, nil, hg⟩
+      have hb := multiDeletes_sim (cfg := cfg) (nm := nm) (view := view) { n with upd := [], del := [] } ht' n.del _ ha
       simp only [hb.noPanic, Bool.false_eq_true, if_false]
-      refine ⟨?_, hb.g⟩
+      refine ⟨?_, hb.to, hb.g⟩
       split <;> simp
     · split
       · rename_i h1
         match hu : n.upd with
         | [] => rw [hu] at h1; simp at h1
         | u :: us =>
-          exact singleArm_sim _ (gnmiUpdate1_sim now t n u us hu ht (first u us hu) hg)
+          have hs := gnmiUpdate1_sim (cfg := cfg) (nm := nm) (view := view) now t n u us hu ht htg (first u us hu) hg
+          exact singleArm_sim _ ⟨hs.1, hs.2.1, hs.2.2.1, hs.2.2.2.1⟩
       · split
         · rename_i h1
           have hd : n.del ≠ [] := by
             intro e; rw [e] at h1; simp at h1
-          have hs := gnmiRemove1_sim (cfg := cfg) (view := view)
-            { t with md := { t.md with updated := t.md.updated + 1 } } n hd ht hg
-          obtain ⟨s1, s2⟩ := hs
+          have hs := gnmiRemove1_sim (cfg := cfg) (nm := nm) (view := view)
+            { t with md := { t.md with updated := t.md.updated + 1 } } n hd ht' hg
+          obtain ⟨s1, s3, s2⟩ := hs
           simp only [s1, Bool.false_eq_true, if_false]
-          refine ⟨by simp, ?_⟩
-          have := applyEvents_group view [] (Target.gnmiRemove1 { t with md := { t.md with updated := t.md.updated + 1 } } n).2.1
-          simp only [List.nil_append] at this
-          rw [this]
-          exact s2
-        · exact ⟨by simp, hg⟩
+          refine ⟨by simp, ?_, ?_⟩
+          · intro e he
+            have := mem_flatten_group (evs := []) he
+            rcases this with h | h
+            · simp at h
+            · exact s3 e h
+          · have := applyEvents_group view [] (Target.gnmiRemove1 { t with md := { t.md with updated := t.md.updated + 1 } } n).2.1
+            simp only [List.nil_append] at this
+            rw [this]
+            exact s2
+        · exact ⟨by simp, nil, hg⟩
 
 /-- **One notification, any shape.** -/
-theorem gnmiUpdate_sim {cfg : Cfg} {view : View} (now : Int) (t : Target) (n : Noti) (ht : n.target ≠ "")
-    (hc : Clean n) (hg : GT cfg view t.tree) :
-    (t.gnmiUpdate cfg now n).1 ≠ .panic ∧
-    GT cfg (applyEvents view (t.gnmiUpdate cfg now n).2.2.flatten) (t.gnmiUpdate cfg now n).2.1.tree := by
-  obtain ⟨b, hb⟩ := tracksTimestamp?_isSome n ht
-  obtain ⟨d1, d2⟩ := dispatch_sim (cfg := cfg) (view := view) now t n ht hc hg
+theorem gnmiUpdate_sim {cfg : Cfg} {nm : String} {view : View} (now : Int) (t : Target) (n : Noti) (ht : nm ≠ "")
+    (htg : n.target = nm) (hc : Clean n) (hg : GT cfg nm view t.tree) :
+    (t.gnmiUpdate cfg now n).1 ≠ .panic ∧ (∀ e ∈ (t.gnmiUpdate cfg now n).2.2.flatten, evTarget e = nm) ∧
+    GT cfg nm (applyEvents view (t.gnmiUpdate cfg now n).2.2.flatten) (t.gnmiUpdate cfg now n).2.1.tree := by
+  obtain ⟨b, hb⟩ := tracksTimestamp?_isSome n (by rw [htg]; exact ht)
+  obtain ⟨d1, d3, d2⟩ := dispatch_sim (cfg := cfg) (nm := nm) (view := view) now t n ht htg hc hg
   unfold Target.gnmiUpdate
   rw [hb]
   simp only
-  refine ⟨d1, ?_⟩
+  refine ⟨d1, d3, ?_⟩
   split
   · rw [(checkTimestamp_frame _ n.ts).1]; exact d2
   · exact d2
